@@ -73,7 +73,9 @@ type c32S3 struct {
 	ops   []string
 }
 
-func newC32S3() *c32S3 { return &c32S3{objects: map[string][]byte{}, mpus: map[string]*c32MPU{}, fault: map[string]string{}} }
+func newC32S3() *c32S3 {
+	return &c32S3{objects: map[string][]byte{}, mpus: map[string]*c32MPU{}, fault: map[string]string{}}
+}
 
 var errC32Injected = errors.New("c32: injected S3 failure")
 
@@ -404,15 +406,24 @@ func c32ProduceResponse(corr int32, topic string, partition int32, code int16, w
 
 // ---- module ------------------------------------------------------------------------------------
 
-func c32Module(api s3API, broker string, defaultAlg string) *lfsModule {
+// c32Module builds the module the way initLFSModule does for KAFSCALE_LFS_PROXY_CHUNK_SIZE =
+// chunk (0 = unset): the uploader gets the normalised chunk size (>= 5 MiB).
+func c32Module(api s3API, broker string, defaultAlg string, chunk int64) *lfsModule {
+	upChunk := chunk
+	if upChunk < c32MiB5 {
+		upChunk = c32MiB5
+	}
+	if chunk == 0 {
+		chunk = c32MiB5
+	}
 	logger := slog.New(slog.NewTextHandler(io.Discard, nil))
 	m := &lfsModule{
 		logger:           logger,
-		s3Uploader:       &s3Uploader{bucket: "c32-bucket", region: "us-east-1", chunkSize: c32MiB5, api: api},
+		s3Uploader:       &s3Uploader{bucket: "c32-bucket", region: "us-east-1", chunkSize: upChunk, api: api},
 		s3Bucket:         "c32-bucket",
 		s3Namespace:      "ns32",
 		maxBlob:          64 << 20,
-		chunkSize:        c32MiB5,
+		chunkSize:        chunk,
 		checksumAlg:      defaultAlg,
 		proxyID:          "c32-proxy",
 		metrics:          newLfsMetrics(),
@@ -433,7 +444,7 @@ func c32Module(api s3API, broker string, defaultAlg string) *lfsModule {
 // ---- payload pieces (big parts share one pattern buffer; a 16-byte stamp makes them distinct)
 
 var c32Pattern = func() []byte {
-	b := make([]byte, c32MiB5)
+	b := make([]byte, 9<<20) // large enough for bodies just above an 8 MiB chunk size
 	x := uint32(2463534242)
 	for i := 0; i+4 <= len(b); i += 4 {
 		x ^= x << 13
@@ -583,6 +594,7 @@ func c32Stamp(t *rapid.T, label string) [16]byte {
 // ---- single-request uploads ----------------------------------------------------------------------
 
 type c32SingleSample struct {
+	Chunk    int64         `json:"chunk_size_config"`
 	Size     int           `json:"size"`
 	Alg      string        `json:"alg_header"`
 	Checksum string        `json:"checksum_header"`
@@ -591,12 +603,12 @@ type c32SingleSample struct {
 	Status   int           `json:"status"`
 }
 
-func c32RunSingle(st *vfkit.Stats, br *c32Broker, size int, stamp [16]byte, algHdr, ckKind, faultOp, faultKind string, plan c32BrokerPlan, topic string, keyB64 string, partHdr string) (string, c32SingleSample) {
+func c32RunSingle(st *vfkit.Stats, br *c32Broker, chunk int64, size int, stamp [16]byte, algHdr, ckKind, faultOp, faultKind string, plan c32BrokerPlan, topic string, keyB64 string, partHdr string) (string, c32SingleSample) {
 	fs := newC32S3()
 	if faultOp != "" {
 		fs.fault[faultOp] = faultKind
 	}
-	m := c32Module(fs, br.ln.Addr().String(), "sha256")
+	m := c32Module(fs, br.ln.Addr().String(), "sha256", chunk)
 	br.set(plan)
 	piece := c32Piece{stamp: stamp, size: size}
 	req := httptest.NewRequest(http.MethodPost, "/lfs/produce", piece.reader())
@@ -626,7 +638,7 @@ func c32RunSingle(st *vfkit.Stats, br *c32Broker, size int, stamp [16]byte, algH
 	}
 	rr := httptest.NewRecorder()
 	m.handleHTTPProduce(rr, req)
-	sample := c32SingleSample{Size: size, Alg: algHdr, Checksum: ckKind, Fault: faultOp + ":" + faultKind, Broker: plan, Status: rr.Code}
+	sample := c32SingleSample{Chunk: chunk, Size: size, Alg: algHdr, Checksum: ckKind, Fault: faultOp + ":" + faultKind, Broker: plan, Status: rr.Code}
 	st.Class(fmt.Sprintf("single-status:%d", rr.Code))
 	if rr.Code < 200 || rr.Code >= 300 {
 		return "", sample
@@ -650,6 +662,52 @@ func c32RunSingle(st *vfkit.Stats, br *c32Broker, size int, stamp [16]byte, algH
 	return "", sample
 }
 
+// chunk-size configurations (KAFSCALE_LFS_PROXY_CHUNK_SIZE): unset, the 5 MiB minimum, 8 MiB
+var c32ChunkConfigs = []int64{0, c32MiB5, 8 << 20}
+
+func c32BoundarySizes(chunk int64) []int {
+	out := []int{c32MiB5 - 1, c32MiB5, c32MiB5 + 1}
+	if chunk > c32MiB5 {
+		out = append(out, int(chunk)-1, int(chunk), int(chunk)+1, (c32MiB5+int(chunk))/2)
+	}
+	return out
+}
+
+// TestVF_C32_SingleEnum: every chunk-size configuration x every body size just below / at /
+// above the 5 MiB multipart threshold and the configured chunk size, well-behaved client
+// and broker (plus one checksum algorithm other than sha256).
+func TestVF_C32_SingleEnum(t *testing.T) {
+	st := vfkit.NewStats("C32", "single-enum")
+	defer st.Flush()
+	br, err := newC32Broker()
+	if err != nil {
+		fmt.Println("VF-INCONCLUSIVE: cannot open a loopback listener for the broker fake:", err)
+		t.Fatalf("listen: %v", err)
+	}
+	defer br.stop()
+	var stamp [16]byte
+	copy(stamp[:], "single-enum-body")
+	for _, chunk := range c32ChunkConfigs {
+		for i, size := range c32BoundarySizes(chunk) {
+			st.Eval()
+			alg, ck := "", "absent"
+			if i%3 == 1 {
+				alg, ck = "md5", "correct"
+			}
+			viol, sample := c32RunSingle(st, br, chunk, size, stamp, alg, ck, "", "", c32BrokerPlan{Kind: "ack"}, "uploads", "a2V5", "3")
+			if viol != "" {
+				t.Fatalf("%s", viol)
+			}
+			if sample.Status != http.StatusOK {
+				st.Class("single-enum-not-accepted")
+			}
+			st.NonTrivial("single-enum", chunk, size)
+			st.Sample(sample)
+		}
+	}
+	st.Note("enumerated", "chunk size config {unset, 5 MiB, 8 MiB} x body sizes {5 MiB-1, 5 MiB, 5 MiB+1, chunk-1, chunk, chunk+1, midway}")
+}
+
 func TestVF_C32_Single(t *testing.T) {
 	st := vfkit.NewStats("C32", "single")
 	defer st.Flush()
@@ -662,9 +720,13 @@ func TestVF_C32_Single(t *testing.T) {
 	rapid.Check(t, func(t *rapid.T) {
 		st.Eval()
 		size := rapid.OneOf(rapid.IntRange(0, 4), rapid.IntRange(1, 300), rapid.IntRange(1, 300), rapid.IntRange(60000, 70000)).Draw(t, "size")
+		chunk := rapid.SampledFrom(c32ChunkConfigs).Draw(t, "chunkSizeConfig")
 		if rapid.IntRange(0, 39).Draw(t, "bigBody") == 0 {
-			size = rapid.SampledFrom([]int{c32MiB5 - 1, c32MiB5}).Draw(t, "bigSize")
+			// rationed 5-9 MiB bodies around the multipart threshold and the configured chunk size
+			size = rapid.SampledFrom(c32BoundarySizes(chunk)).Draw(t, "bigSize")
+			st.Class("single-big-body")
 		}
+		st.Class(fmt.Sprintf("chunk-config:%d", chunk))
 		stamp := c32Stamp(t, "stamp")
 		algHdr := rapid.SampledFrom([]string{"", "", "", "", "sha256", "sha256", "md5", "md5", "crc32", "crc32", "none", "MD5", "bogus"}).Draw(t, "alg")
 		ckKind := rapid.SampledFrom([]string{"absent", "absent", "absent", "correct", "correct", "correct", "upper", "wrong"}).Draw(t, "checksum")
@@ -685,12 +747,12 @@ func TestVF_C32_Single(t *testing.T) {
 			st.ExcludedCase(c32KnownBroker)
 			return
 		}
-		viol, sample := c32RunSingle(st, br, size, stamp, algHdr, ckKind, faultOp, faultKind, plan, topic, keyB64, partHdr)
+		viol, sample := c32RunSingle(st, br, chunk, size, stamp, algHdr, ckKind, faultOp, faultKind, plan, topic, keyB64, partHdr)
 		if viol != "" {
 			t.Fatalf("%s", viol)
 		}
 		if plan.Kind != "ack" || faultOp != "" {
-			st.NonTrivial("single", size, algHdr, ckKind, faultOp, faultKind, plan.Kind, plan.Code, topic, keyB64, partHdr)
+			st.NonTrivial("single", chunk, size, algHdr, ckKind, faultOp, faultKind, plan.Kind, plan.Code, topic, keyB64, partHdr)
 			st.Sample(sample)
 		}
 	})
@@ -704,16 +766,17 @@ type c32ListEntry struct {
 }
 
 type c32SessionSample struct {
-	Parts      []int         `json:"part_sizes"`
-	Declared   int64         `json:"declared_size"`
-	Alg        string        `json:"alg"`
-	Checksum   string        `json:"checksum"`
-	ListKind   string        `json:"completion_list"`
-	Fault      string        `json:"s3_fault"`
-	Broker     c32BrokerPlan `json:"broker"`
-	Statuses   []int         `json:"statuses"`
-	RetryKind  string        `json:"second_completion"`
-	ResentPart bool          `json:"resent_part"`
+	ClientRetries bool          `json:"client_retries_failed_requests"`
+	Parts         []int         `json:"part_sizes"`
+	Declared      int64         `json:"declared_size"`
+	Alg           string        `json:"alg"`
+	Checksum      string        `json:"checksum"`
+	ListKind      string        `json:"completion_list"`
+	Fault         string        `json:"s3_fault"`
+	Broker        c32BrokerPlan `json:"broker"`
+	Statuses      []int         `json:"statuses"`
+	RetryKind     string        `json:"second_completion"`
+	ResentPart    bool          `json:"resent_part"`
 }
 
 func c32JSONReq(method, path string, v any) *http.Request {
@@ -722,21 +785,25 @@ func c32JSONReq(method, path string, v any) *http.Request {
 }
 
 type c32SessionPlan struct {
-	sizes      []int
-	stamps     [][16]byte
-	declDelta  int64
-	alg        string
-	ckKind     string
-	listKind   string
-	retryKind  string
-	faultOp    string
-	faultKind  string
-	broker     c32BrokerPlan
-	resend     bool
-	noRetry    bool // do not retry a part whose S3 upload failed (set only when that history is a listed finding)
-	outOfOrder bool
-	partition  *int32
-	keyB64     string
+	sizes     []int
+	stamps    [][16]byte
+	declDelta int64
+	alg       string
+	ckKind    string
+	listKind  string
+	retryKind string
+	faultOp   string
+	faultKind string
+	broker    c32BrokerPlan
+	resend    bool
+	// clientRetries: the client repeats an init / completion request once after a 5xx answer
+	// (the injected S3 fault is transient: it hits one call), with retryBroker for the repeat
+	clientRetries bool
+	retryBroker   *c32BrokerPlan
+	noRetry       bool // do not retry a part whose S3 upload failed (set only when that history is a listed finding)
+	outOfOrder    bool
+	partition     *int32
+	keyB64        string
 }
 
 func c32BuildList(kind string, etags map[int32]string, n int) []c32ListEntry {
@@ -780,8 +847,8 @@ func c32IsSubsetKind(kind string, n int) bool {
 
 func c32RunSession(st *vfkit.Stats, br *c32Broker, p c32SessionPlan) (string, c32SessionSample) {
 	fs := newC32S3()
-	m := c32Module(fs, br.ln.Addr().String(), "sha256")
-	sample := c32SessionSample{Parts: p.sizes, Alg: p.alg, Checksum: p.ckKind, ListKind: p.listKind, Fault: p.faultOp + ":" + p.faultKind,
+	m := c32Module(fs, br.ln.Addr().String(), "sha256", 0)
+	sample := c32SessionSample{ClientRetries: p.clientRetries, Parts: p.sizes, Alg: p.alg, Checksum: p.ckKind, ListKind: p.listKind, Fault: p.faultOp + ":" + p.faultKind,
 		Broker: p.broker, RetryKind: p.retryKind, ResentPart: p.resend}
 	pieces := make([]c32Piece, len(p.sizes))
 	total := int64(0)
@@ -817,6 +884,13 @@ func c32RunSession(st *vfkit.Stats, br *c32Broker, p c32SessionPlan) (string, c3
 	rr := httptest.NewRecorder()
 	m.handleHTTPUploadInit(rr, c32JSONReq(http.MethodPost, "/lfs/uploads", initReq))
 	sample.Statuses = append(sample.Statuses, rr.Code)
+	if rr.Code >= 500 && p.clientRetries {
+		delete(fs.fault, "CreateMultipartUpload")
+		rr = httptest.NewRecorder()
+		m.handleHTTPUploadInit(rr, c32JSONReq(http.MethodPost, "/lfs/uploads", initReq))
+		sample.Statuses = append(sample.Statuses, rr.Code)
+		st.Class("session-init-retried")
+	}
 	if rr.Code != http.StatusOK {
 		st.Class(fmt.Sprintf("session-init-status:%d", rr.Code))
 		return "", sample
@@ -891,12 +965,14 @@ func c32RunSession(st *vfkit.Stats, br *c32Broker, p c32SessionPlan) (string, c3
 	if p.partition != nil {
 		wantPart = *p.partition
 	}
-	complete := func(kind string) string {
-		br.set(p.broker)
+	lastStatus := 0
+	complete := func(kind string, plan c32BrokerPlan) string {
+		br.set(plan)
 		list := c32BuildList(kind, etags, len(etags))
 		rr := httptest.NewRecorder()
 		m.handleHTTPUploadSession(rr, c32JSONReq(http.MethodPost, base+"/complete", map[string]any{"parts": list}))
 		sample.Statuses = append(sample.Statuses, rr.Code)
+		lastStatus = rr.Code
 		st.Class(fmt.Sprintf("session-complete-status:%d", rr.Code))
 		if rr.Code < 200 || rr.Code >= 300 {
 			return ""
@@ -909,12 +985,24 @@ func c32RunSession(st *vfkit.Stats, br *c32Broker, p c32SessionPlan) (string, c3
 		}
 		return ""
 	}
-	if v := complete(p.listKind); v != "" {
+	if v := complete(p.listKind, p.broker); v != "" {
 		return v, sample
+	}
+	if p.clientRetries && lastStatus >= 500 {
+		// the same completion request again after a 5xx answer
+		delete(fs.fault, "CompleteMultipartUpload")
+		plan := p.broker
+		if p.retryBroker != nil {
+			plan = *p.retryBroker
+		}
+		st.Class("session-complete-retried-after-5xx")
+		if v := complete(p.listKind, plan); v != "" {
+			return v + "\n(this was the client's retry of the completion after a 5xx answer)", sample
+		}
 	}
 	if p.retryKind != "" {
 		delete(fs.fault, "CompleteMultipartUpload")
-		if v := complete(p.retryKind); v != "" {
+		if v := complete(p.retryKind, p.broker); v != "" {
 			return v, sample
 		}
 	}
@@ -952,6 +1040,23 @@ func TestVF_C32_Session(t *testing.T) {
 			p.faultKind = rapid.SampledFrom([]string{"before", "after"}).Draw(t, "faultKind")
 		}
 		p.broker = rapid.SampledFrom(c32BrokerPlans).Draw(t, "broker")
+		p.clientRetries = rapid.IntRange(0, 2).Draw(t, "clientRetries") > 0
+		if rapid.Bool().Draw(t, "retryBrokerAck") {
+			p.retryBroker = &c32BrokerPlan{Kind: "ack"}
+		}
+		if rapid.IntRange(0, 3).Draw(t, "wellFormedWithFault") == 0 {
+			// class "transient S3 failure, otherwise well-behaved client": one fault on
+			// create / part / complete, every failed request is retried once
+			p.declDelta, p.alg, p.listKind, p.retryKind = 0, rapid.SampledFrom([]string{"", "md5", "crc32"}).Draw(t, "wfAlg"), "full", ""
+			if p.ckKind == "wrong" {
+				p.ckKind = "correct"
+			}
+			p.faultOp = rapid.SampledFrom([]string{"CreateMultipartUpload", "UploadPart", "CompleteMultipartUpload", "CompleteMultipartUpload"}).Draw(t, "wfFaultOp")
+			p.faultKind = rapid.SampledFrom([]string{"before", "after"}).Draw(t, "wfFaultKind")
+			p.clientRetries = true
+			p.broker = c32BrokerPlan{Kind: "ack"}
+			st.Class("class:transient-s3-failure-with-retries")
+		}
 		p.resend = rapid.IntRange(0, 3).Draw(t, "resend") == 0
 		p.outOfOrder = rapid.IntRange(0, 5).Draw(t, "outOfOrder") == 0
 		if rapid.Bool().Draw(t, "withPartition") {
@@ -979,10 +1084,51 @@ func TestVF_C32_Session(t *testing.T) {
 			t.Fatalf("%s", viol)
 		}
 		if p.broker.Kind != "ack" || p.listKind != "full" || p.faultOp != "" {
-			st.NonTrivial("session", p.sizes, p.declDelta, p.alg, p.ckKind, p.listKind, p.retryKind, p.faultOp, p.faultKind, p.broker.Kind, p.broker.Code, p.resend, p.outOfOrder)
+			st.NonTrivial("session", p.sizes, p.declDelta, p.alg, p.ckKind, p.listKind, p.retryKind, p.faultOp, p.faultKind, p.broker.Kind, p.broker.Code, p.resend, p.outOfOrder, p.clientRetries, p.retryBroker != nil)
 			st.Sample(sample)
 		}
 	})
+}
+
+// TestVF_C32_RetryEnum: a well-behaved client whose every failed request is retried once,
+// enumerated over the S3 fault point x fault kind x number of parts x broker behaviour on
+// the first completion.
+func TestVF_C32_RetryEnum(t *testing.T) {
+	st := vfkit.NewStats("C32", "retry-enum")
+	defer st.Flush()
+	br, err := newC32Broker()
+	if err != nil {
+		fmt.Println("VF-INCONCLUSIVE: cannot open a loopback listener for the broker fake:", err)
+		t.Fatalf("listen: %v", err)
+	}
+	defer br.stop()
+	var stampA, stampB [16]byte
+	copy(stampA[:], "retry-enum-part1")
+	copy(stampB[:], "retry-enum-part2")
+	ack := c32BrokerPlan{Kind: "ack"}
+	for _, op := range []string{"", "CreateMultipartUpload", "UploadPart", "CompleteMultipartUpload", "AbortMultipartUpload"} {
+		for _, kind := range []string{"before", "after"} {
+			if op == "" && kind == "after" {
+				continue
+			}
+			for _, sizes := range [][]int{{300}, {c32MiB5, 77}} {
+				for _, first := range []c32BrokerPlan{ack, {Kind: "close"}} {
+					for _, alg := range []string{"", "crc32"} {
+						st.Eval()
+						p := c32SessionPlan{sizes: sizes, stamps: [][16]byte{stampA, stampB}[:len(sizes)], alg: alg, ckKind: "correct", listKind: "full",
+							faultOp: op, faultKind: kind, broker: first, clientRetries: true, retryBroker: &ack, noRetry: vfkit.Known(c32KnownRetry), keyB64: "a2V5"}
+						viol, sample := c32RunSession(st, br, p)
+						if viol != "" {
+							t.Fatalf("%s", viol)
+						}
+						st.NonTrivial("retry-enum", op, kind, sizes, first.Kind, alg)
+						st.Sample(sample)
+					}
+				}
+			}
+		}
+	}
+	st.Note("enumerated", "S3 fault point {none, create, part, complete, abort} x {before, after effect} x parts {1, 2} x first broker behaviour {ack, close} x alg {sha256, crc32}; every failed init/part/complete request is retried once")
 }
 
 // TestVF_C32_Witness replays minimal witnesses of the listed findings.
@@ -1001,7 +1147,7 @@ func TestVF_C32_Witness(t *testing.T) {
 
 	// 1. single upload, broker answers NOT_LEADER_OR_FOLLOWER (6)
 	st.Eval()
-	v1, s1 := c32RunSingle(st, br, 100, stampA, "", "absent", "", "", c32BrokerPlan{Kind: "error-code", Code: 6}, "uploads", "", "")
+	v1, s1 := c32RunSingle(st, br, 0, 100, stampA, "", "absent", "", "", c32BrokerPlan{Kind: "error-code", Code: 6}, "uploads", "", "")
 	st.NonTrivial("witness-broker")
 	st.Sample(map[string]any{"witness": "single upload, broker replies error code 6", "status": s1.Status, "violation": v1})
 	st.KnownResult(c32KnownBroker, v1 != "", fmt.Sprintf("POST /lfs/produce with broker reply code 6 -> HTTP %d", s1.Status))
